@@ -154,6 +154,34 @@ def long_history(tier):
     return fn
 
 
+def five_digits(b, sym):
+    """the :04d / \\d{4,} boundary: generation 9999 -> 10000 -> 10001"""
+    b.mkfile("R/clip.mov", 1)
+    r = b.run("create", root="R", h=["md5"])
+    b.require(r.exit == 0, "setup-create", str(r))
+    start = sym.choose("highest_existing", [9998, 9999, 10000, 99999])
+    b.renumber_generation("R", b.manifest_names("R")[0], start)
+    for i in range(3):
+        before = state(b, ["R"])
+        now = b.current_now()
+        r = b.run("create", root="R", h=["md5"]) if i != 1 else b.run("create", root="R", h=["md5"], sf=["R/clip.mov"])
+        b.require(r.exit == 0 and r.exc is None, "create-exit-code", "run %d after generation %d: %s" % (i, start, r))
+        after = state(b, ["R"])
+        added = [n for n in after["R"]["names"] if n not in before["R"]["names"]]
+        b.require(len(added) == 1, "one-new-manifest-per-touched-history", str(added))
+        m = NAME_RE.match(added[0])
+        b.require(m is not None and int(m.group(1)) == start + i + 1, "generation-number-max-plus-one", "%s after %d" % (added[0], start + i))
+        b.require(m.group(2) == "R" and m.group(3) == utc_name_part(now), "manifest-name-shape", added[0])
+        nc = after["R"]["chain"]
+        b.require(len(nc) == len(before["R"]["chain"]) + 1 and nc[-1].path == added[0] and int(nc[-1].seq) == start + i + 1 and
+                  truth(nc[-1].c4 == b.H("c4", posixpath.join("R/ascmhl", added[0]))), "chain-one-new-entry", "%s" % nc[-1])
+    r = b.run("info", root="R")
+    gens = [int(m.group(1)) for m in (re.match(r"\s+Generation (\d+) ", l) for l in r.out) if m]
+    b.require(r.exit == 0 and gens == [start, start + 1, start + 2, start + 3], "reload-generations-1..n", "%s" % gens)
+    r = b.run("verify", root="R")
+    b.require(r.exit == 0, "reload-ok", str(r))
+
+
 def harnesses(tier):
     steps_n = 2 if tier == "quick" else 3
     return [Harness("c06-append-only", scenario(tier), frontier=6, budget_s=2400,
@@ -162,8 +190,12 @@ def harnesses(tier):
                          "entry (c4 of the final bytes), reload gives 1..n" % steps_n,
                     bounds={"runs": steps_n, "layouts": "flat | child at A/AA | children at A and B", "edits": "none|alter|delete|add per step",
                             "modes": "folder | -sf root file | -sf deep file"},
-                    outside=["generation numbers above the run bound (the :04d / \\\\d{4,} boundary at 9999 -> 10000 is not reached)"]),
+                    outside=["generation numbers between 13 and 9997 and above 100002 (c06-long / c06-five-digits cover 1-14 and the 9999 -> 10000 boundary)"]),
             Harness("c06-long", long_history(tier), frontier=3, budget_s=1200,
                     what="10-12 (thorough -14) consecutive create / create -sf runs in a folder named 'A001[C002]' (flat or with a nested history, "
                          "same or different clock second): two-digit generation numbers, chain order, names",
-                    bounds={"runs": "10-12 / 10-14", "root folder name": "A001[C002]"}, outside=[])]
+                    bounds={"runs": "10-12 / 10-14", "root folder name": "A001[C002]"}, outside=[]),
+            Harness("c06-five-digits", five_digits, frontier=2, budget_s=600,
+                    what="a history whose highest generation is 9998 / 9999 / 10000 / 99999 (reached by renumbering a committed generation): three "
+                         "more runs are numbered max+1, chained, and reload in numeric order",
+                    bounds={"highest existing generation": [9998, 9999, 10000, 99999]}, outside=[])]
